@@ -199,3 +199,59 @@ def gen_unit_funcs(rng, name, n):
     g = UnitGen(rng, name)
     P = g.gen(n)
     return P, g.kinds
+
+
+def gen_bracket_module(rng, name, n):
+    """pairs (callee v_k with a random mix of constant top allocas, variable-size allocas, allocas behind a
+    label or a call, size registers defined by constant / register moves; caller w_k = one `inline` of it):
+    after link w_k must contain exactly `inlineBrackets` (Model/Simplify.lean) bstart/bend pairs"""
+    r = rng
+    P = Prog(name)
+    P.protos.add("p2: proto i64, i64:a, i64:b")
+    P.protos.add("pe1: proto i64, i64:a")
+    P.imports.add("ext1")
+    kinds = {}
+    pairs = []
+    for k in range(n):
+        v, w = f"{name}_v{k}", f"{name}_w{k}"
+        ins = [("mov", "r", "a")]
+        regs = []
+        shape = []
+
+        def use(p):
+            ins.extend([("mov", ("mem", "i64", 0, p, None, 1), "b"), ("add", "r", "r", ("mem", "i64", 0, p, None, 1))])
+        for j in range(r.below(3)):            # constant allocas at the top
+            p = f"c{j}"
+            regs.append(p)
+            if r.chance(1, 3):
+                ins.extend([("mov", "n", r.choice([8, 16, 40])), ("alloca", p, "n")])
+                shape.append("top_const_via_mov")
+            else:
+                ins.append(("alloca", p, r.choice([8, 16, 24, 100])))
+                shape.append("top_const")
+            if r.chance(3, 4):
+                use(p)
+        j = r.below(6)
+        if j == 0:                             # variable size, still in front of every label
+            ins.extend([("and", "n", "a", 56), ("add", "n", "n", 8)] + ([("mov", "q", 3)] if r.chance(1, 2) else []) + [("alloca", "v0", "n")])
+            regs.append("v0"); use("v0"); shape.append("var_top_position")
+        elif j == 1:                           # size register copied from a register
+            ins.extend([("and", "q", "a", 56), ("add", "q", "q", 8), ("mov", "n", "q"), ("alloca", "v0", "n")])
+            regs.append("v0"); use("v0"); shape.append("var_via_reg_mov")
+        elif j == 2:                           # behind a label
+            ins.extend([("label", v + "_L"), ("alloca", "v0", r.choice(["n2", 32]))])
+            ins.insert(1, ("mov", "n2", 48))
+            regs.append("v0"); use("v0"); shape.append("behind_label")
+        elif j == 3:                           # behind a call
+            ins.extend([("call", "pe1", "ext1", "q", "a"), ("alloca", "v0", 16)])
+            regs.append("v0"); use("v0"); shape.append("behind_call")
+        elif j == 4 and regs:                  # a second constant alloca after the top one was used
+            ins.extend([("alloca", "v0", 16)])
+            regs.append("v0"); use("v0"); shape.append("const_after_use")
+        ins.append(("ret", "r"))
+        P.funcs.append((v, "i64, i64:a, i64:b", [f"i64:{x}" for x in ["r", "n", "n2", "q"] + regs], ins))
+        P.funcs.append((w, "i64, i64:a, i64:b", ["i64:r"], [("inline", "p2", v, "r", "a", "b"), ("ret", "r")]))
+        key = "+".join(sorted(set(shape))) or "no_alloca"
+        kinds[key] = kinds.get(key, 0) + 1
+        pairs.append((v, w))
+    return P, pairs, kinds
